@@ -129,10 +129,10 @@ fn hex(b: u8, mode: usize, rng: &mut Rng) -> String {
 }
 
 /// may this character stand for itself in the path of a file URI without changing which path the URI denotes?
-/// (the URL parser drops/trims controls and spaces, splits at `/ \ ? #`, decodes after `%`,
-///  and reads a first segment `X|` as the drive `X:`)
+/// (the URL parser trims/drops controls and spaces, splits at `/ \ ? #`, decodes after `%`); same as `lit_ok` of
+/// coq/theories/C34/Spec.v. After "file:///" a first segment `X|` is NOT read as a drive (only after "file:/" or "file:").
 fn literal_ok(c: char) -> bool {
-    c > ' ' && c != '\u{7f}' && !matches!(c, '%' | '#' | '?' | '\\' | '/' | '|')
+    c > ' ' && !matches!(c, '%' | '#' | '?' | '\\' | '/')
 }
 
 /// an alternative percent-encoding of the URI of `path` (same decoded bytes)
